@@ -342,7 +342,15 @@ namespace
             Obj::live_count = 0;
             Shadow sh;
             if (kind == 0) { pool_init(&ph); pool_engage(&ph, zone.get(), zsize, elsz); sh.lo = zone.get(); }
-            else if (kind == 1) { ip.init(zone.get(), zsize, elsz); sh.lo = zone.get(); }
+            else if (kind == 1)
+            {
+                // a default-constructed pool that has not been initialised yet holds nothing: null, free count 0
+                if (ip.get() != nullptr || ip.avail() != 0 || ip.room() != 0) violate("C10/pool-before-init@igris::pool", "a default-constructed igris::pool hands out a block or reports free cells before init()");
+                ip.put(nullptr);
+                probe("pool_used_before_init");
+                ip.init(zone.get(), zsize, elsz);
+                sh.lo = zone.get();
+            }
             else { sop.reset(new igris::static_object_pool<Obj, 6>()); sh.lo = (char *)sop->storage.data(); }
             sh.hi = sh.lo + zsize;
             bool exhausted = false, refilled = false;
